@@ -27,9 +27,33 @@ def gen_aba(rng):
     return {"base": base, "rule": rule, "pre": pre, "progs": progs, "steps": steps}
 
 
+def gen_stale(rng):
+    """a completion that read Half-Open is parked before its guarded transition while the probe fails (or succeeds) first"""
+    retry = rng.pick([1, 5, 100])
+    strat = rng.pick([1, 2])
+    base = 1_700_000_000_000 + rng.randrange(0, 10_000_000)
+    rule = [strat, retry, 1, 10000, 1, 0, bits(1.0 if strat == 2 else 0.5)]
+    e_probe = rng.pick([1, 1, 0])
+    e_stale = rng.pick([0, 0, 1])
+    progs = [[("B",), ("X", e_probe)], [("B",), ("X", e_stale)], [("B",), ("X", 1)]]
+    steps = [(1, 0), (1, 0)]                      # thread 1 is admitted while Closed and parks in its completion
+    steps += [(2, 0)] * 6                         # thread 2 fails and trips the breaker
+    steps += [(0, retry), (0, 0), (0, 0)]         # thread 0 probes after the deadline and parks in its completion
+    steps += [(1, 0)]                             # thread 1 reads Half-Open and parks before its transition
+    steps += [(0, 0), (0, 0)]                     # the probe decides first
+    steps += [(1, 0), (1, 0)]
+    if rng.chance(0.5):
+        k = rng.randrange(2, len(steps))
+        steps.insert(k, (rng.randrange(3), 0))
+    steps += [(rng.randrange(3), rng.pick([0, 0, retry])) for _ in range(rng.pick([0, 2, 6]))]
+    return {"base": base, "rule": rule, "pre": [], "progs": progs, "steps": steps}
+
+
 def gen_case(rng, i):
     if i % 8 == 3:
         return gen_aba(rng)
+    if i % 8 == 5:
+        return gen_stale(rng)
     strat = rng.pick([0, 1, 2, 2])
     retry = rng.pick([1, 1, 5, 20, 100, 1000])
     minr = rng.pick([0, 1, 1, 2, 3])
